@@ -28,6 +28,7 @@ d,cid,tier,code,commit,nviol=sys.argv[1:7]
 p=d+'/result.json'
 r=json.load(open(p)) if os.path.exists(p) else {}
 r[cid+':'+tier]={"exit":int(code),"caught":code=="1","violation_lines":int(nviol),"verif_commit":commit}
+r.setdefault('history',[]).append({"check":cid,"tier":tier,"exit":int(code),"caught":code=="1","verif_commit":commit})
 json.dump(r,open(p,'w'),indent=1)
 PY
 done
